@@ -101,7 +101,7 @@ def classify(got, exp, h, name, role):
 # reference model (plain dicts / lists)
 # ---------------------------------------------------------------------------
 def new_model():
-    return {"holes": {}, "order": [], "writes": {}, "ggen": {}, "hgen": {}, "copies": []}
+    return {"holes": {}, "order": [], "writes": {}, "ggen": {}, "hgen": {}, "copies": [], "stale_groups": []}
 
 
 def m_assoc_names(hole, kind):
@@ -186,20 +186,23 @@ def m_apply(m, op):
             for an in grp["assoc"]:
                 hole["data"].pop(an)
             del hole["groups"][g]
+            m["stale_groups"] = sorted(set(m["stale_groups"]) | {g})
     elif k == "rm_group":
         _, h, g, _via = op
         hole = H[h]
         for nm in hole["groups"][g]["members"]:
             hole["data"].pop(nm)
         del hole["groups"][g]
+        m["stale_groups"] = sorted(set(m["stale_groups"]) | {g})
     elif k == "rm_hole":
         _, h, _via = op
+        m["stale_groups"] = sorted(set(m["stale_groups"]) | set(H[h]["groups"]))
         del H[h]
         m["order"].remove(h)
     elif k == "copy":
         m["copies"].append({"where": op[1], "holes": _copy.deepcopy(H), "order": list(m["order"])})
     elif k == "reopen":
-        pass
+        m["stale_groups"] = []
     else:
         raise core.HarnessError(f"unknown op {op}")
 
@@ -242,6 +245,8 @@ def enabled(m, alpha, n_ops_done=0):
                         if alpha.get("short") and hole["groups"][g]["n"] > 0:
                             ops.append(["add", h, name, g, hole["groups"][g]["n"], 1, "loc"])
                     else:
+                        if any(an in hole["data"] for an in m_assoc_names(hole, GKIND[g])):
+                            continue  # the library's numbering would reuse a depth label of this hole (excluded)
                         for n in alpha["lens"][GKIND[g]]:
                             ops.append(["add", h, name, g, n, 0, "loc"])
                             if alpha.get("short") and n > 1:
@@ -645,7 +650,30 @@ def _same_vals(a, b):
 
 
 # -- group-wide table ---------------------------------------------------------
-def table_check(dg, holes_model, obs_name):
+def _table_preconditions(g, owners, holes_model, stale_groups, obs_name):
+    """Configurations in which the table view is known to go wrong whatever the values
+    (one collapsed witness each, so that the generic witnesses stay free for anything else):
+    D8 a group of this name was removed from some hole since the file was opened (live only);
+    D9 the holes keep this group on different depth labels (DEPTH / DEPTH(1)), or a hole that
+       does not have the group carries a data set named like its depth label;
+    D5 a hole that has the group also carries, in ANOTHER of its groups, a data set named like
+       one of the table's columns."""
+    if obs_name == "live" and g in stale_groups:
+        return "a-group-of-this-name-was-removed-since-opening"
+    labels = set()
+    for h in owners:
+        labels |= set(holes_model[h]["groups"][g]["assoc"])
+    if len({tuple(holes_model[h]["groups"][g]["assoc"]) for h in owners}) > 1 or any(
+        lbl in holes_model[h]["data"] for h in holes_model if h not in owners for lbl in labels
+    ):
+        return "depth-label-differs-between-holes-or-is-used-by-another-group"
+    cols = {nm for h in owners for nm in holes_model[h]["groups"][g]["members"]}
+    if any(col in holes_model[h]["data"] and holes_model[h]["data"][col]["group"] != g for h in owners for col in cols):
+        return "column-name-also-used-in-another-group-of-a-hole"
+    return None
+
+
+def table_check(dg, holes_model, obs_name, stale_groups=()):
     """'the group-wide table view lists exactly the per-hole values in hole order'."""
     out = []
     C = "table-view"
@@ -656,7 +684,7 @@ def table_check(dg, holes_model, obs_name):
         tables = dg.drillholes_tables
     except Exception as err:  # pylint: disable=broad-except
         if names:
-            out.append((C, f"{obs_name}:drillholes_tables-raises", {"error": repr(err)}))
+            out.append((C, f"{obs_name}:drillholes_tables-raises:{type(err).__name__}", {"error": repr(err)}))
         return out, {}
     stats = {}
     for g in sorted(set(tables) - set(names)):
@@ -665,42 +693,52 @@ def table_check(dg, holes_model, obs_name):
         except Exception:  # pylint: disable=broad-except
             n_rows = 0
         if n_rows:
-            out.append((C, f"{obs_name}:table-lists-rows-of-a-group-no-hole-has", {"group": str(g), "rows": n_rows}))
+            if obs_name == "live" and g in stale_groups:
+                out.append((C, f"{obs_name}:table-wrong:a-group-of-this-name-was-removed-since-opening", {"group": str(g), "rows": n_rows}))
+            else:
+                out.append((C, f"{obs_name}:table-lists-rows-of-a-group-no-hole-has", {"group": str(g), "rows": n_rows}))
     for g in names:
         owners = [h for h in holes_model if g in holes_model[h]["groups"]]
-        if g not in tables:
-            out.append((C, f"{obs_name}:table-missing", {"group": g, "holes": owners}))
-            continue
-        try:
-            tab = tables[g].depth_table
-        except Exception as err:  # pylint: disable=broad-except
-            empty = all(holes_model[h]["groups"][g]["n"] == 0 for h in owners)
-            out.append((C, f"{obs_name}:depth_table-raises:{type(err).__name__}" + (":no-rows-at-all" if empty else ""), {"group": g, "error": repr(err)[:300]}))
-            continue
-        cols = list(tab.dtype.names or [])
-        if "Drillhole" not in cols:
-            out.append((C, f"{obs_name}:no-drillhole-column", {"group": g, "columns": cols}))
-            continue
-        want_cols = sorted({nm for h in owners for nm in holes_model[h]["groups"][g]["members"]})
-        if sorted(c for c in cols if c != "Drillhole") != want_cols:
-            out.append((C, f"{obs_name}:columns", {"group": g, "expected": want_cols, "got": cols}))
-            continue
-        # rows grouped by hole, in order of appearance
-        blocks = []
-        for i, key in enumerate(tab["Drillhole"].tolist()):
-            key = key.decode() if isinstance(key, bytes) else str(key)
-            key = rawh5.norm_uid(key)
-            if blocks and blocks[-1][0] == key:
-                blocks[-1][1].append(i)
-            else:
-                blocks.append([key, [i]])
-        keys = [b[0] for b in blocks]
-        if len(set(keys)) != len(keys):
-            out.append((C, f"{obs_name}:hole-rows-not-contiguous", {"group": g, "order": keys}))
-            continue
-        stats[g] = len(tab)
-        out += _table_blocks(tab, blocks, g, owners, holes_model, obs_name, cols)
+        found = _table_one(tables, g, owners, holes_model, obs_name, stats)
+        if found:
+            pre = _table_preconditions(g, owners, holes_model, stale_groups, obs_name)
+            if pre is not None and not any(w.endswith(":no-rows-at-all") for _, w, _ in found):
+                found = [(C, f"{obs_name}:table-wrong:{pre}", {"group": g, "symptoms": sorted({w for _, w, _ in found}), "first": found[0][2]})]
+        out += found
     return out, stats
+
+
+def _table_one(tables, g, owners, holes_model, obs_name, stats):
+    out = []
+    C = "table-view"
+    if g not in tables:
+        return [(C, f"{obs_name}:table-missing", {"group": g, "holes": owners})]
+    try:
+        tab = tables[g].depth_table
+    except Exception as err:  # pylint: disable=broad-except
+        empty = all(holes_model[h]["groups"][g]["n"] == 0 for h in owners)
+        return [(C, f"{obs_name}:depth_table-raises:{type(err).__name__}" + (":no-rows-at-all" if empty else ""), {"group": g, "error": repr(err)[:300]})]
+    cols = list(tab.dtype.names or [])
+    if "Drillhole" not in cols:
+        return [(C, f"{obs_name}:no-drillhole-column", {"group": g, "columns": cols})]
+    want_cols = sorted({nm for h in owners for nm in holes_model[h]["groups"][g]["members"]})
+    if sorted(c for c in cols if c != "Drillhole") != want_cols:
+        return [(C, f"{obs_name}:columns", {"group": g, "expected": want_cols, "got": cols})]
+    # rows grouped by hole, in order of appearance
+    blocks = []
+    for i, key in enumerate(tab["Drillhole"].tolist()):
+        key = key.decode() if isinstance(key, bytes) else str(key)
+        key = rawh5.norm_uid(key)
+        if blocks and blocks[-1][0] == key:
+            blocks[-1][1].append(i)
+        else:
+            blocks.append([key, [i]])
+    keys = [b[0] for b in blocks]
+    if len(set(keys)) != len(keys):
+        return [(C, f"{obs_name}:hole-rows-not-contiguous", {"group": g, "order": keys})]
+    stats[g] = len(tab)
+    out += _table_blocks(tab, blocks, g, owners, holes_model, obs_name, cols)
+    return out
 
 
 def _table_blocks(tab, blocks, g, owners, holes_model, obs_name, cols):
@@ -1208,7 +1246,7 @@ def _live_observation(ex, exp, removed_names, holes_model, copy_exp):
     viol += compare_view(exp, live, "live", removed_names)
     tstats = {}
     if not _view_broken(viol, "live"):
-        tv, tstats = table_check(dg, holes_model, "live")
+        tv, tstats = table_check(dg, holes_model, "live", ex.model["stale_groups"])
         viol += tv
     cviol = []
     if ex.copy_uid is not None:
@@ -1366,6 +1404,7 @@ def _model_shape(m):
                   for h, hole in m["holes"].items()},
         "order": m["order"],
         "copies": [c["where"] for c in m["copies"]],
+        "stale_groups": m["stale_groups"],
     }
 
 
